@@ -524,19 +524,22 @@ def rawStringLiteral (inp : Input) (start : Loc) (l : Loc) : Res Out :=
   | none => fatal inp start .invalidRawStringDelimiter l   -- `self.error`: skips to the end
   | some (d, l1) => rawLoop inp start l1 d l1
 
+/-- token.rs:665-682 the second half of `char_literal`: the closing quote is expected at `l2`. -/
+def charClose (inp : Input) (start : Loc) (ch : Nat) (l2 : Loc) (errs : List SErr) : Res Out :=
+  match bump inp l2 with
+  | none => recoverTok l2 l2 .unexpectedEof (.chr 0) l2 errs   -- eof_recover
+  | some (b, l3) =>
+    if b == 39 then mkTok start l3 (.chr ch) l3 errs
+    else if 128 ≤ b then
+      -- the byte read instead of the quote may start a multi-byte character
+      match restoreChar inp b l3.abs with
+      | .ok nx => recoverTok start l2 .unterminatedCharLiteral (.chr ch) (bumpN inp (lenUtf8 nx - 1) l3) errs
+      | .panic m => .panic m
+      | .hang => .hang
+    else recoverTok start l2 .unterminatedCharLiteral (.chr ch) l3 errs
+
 /-- token.rs:638 `char_literal(start)`; `l` is the location after the opening quote. -/
 def charLiteral (inp : Input) (start : Loc) (l : Loc) : Res Out :=
-  let close (ch : Nat) (l2 : Loc) (errs : List SErr) : Res Out :=
-    match bump inp l2 with
-    | none => recoverTok l2 l2 .unexpectedEof (.chr 0) l2 errs   -- eof_recover
-    | some (b, l3) =>
-      if b == 39 then mkTok start l3 (.chr ch) l3 errs
-      else if 128 ≤ b then
-        match restoreChar inp b l3.abs with
-        | .ok nx => recoverTok start l2 .unterminatedCharLiteral (.chr ch) (bumpN inp (lenUtf8 nx - 1) l3) errs
-        | .panic m => .panic m
-        | .hang => .hang
-      else recoverTok start l2 .unterminatedCharLiteral (.chr ch) l3 errs
   match bump inp l with
   | none => recoverTok l l .unexpectedEof (.chr 0) l
   | some (b, l1) =>
@@ -544,14 +547,14 @@ def charLiteral (inp : Input) (start : Loc) (l : Loc) : Res Out :=
       match escapeCode inp l l1 with
       | .panic m => .panic m
       | .hang => .hang
-      | .ok (escaped, l2, es) => close (if escaped < 128 then escaped else 65533) l2 es
+      | .ok (escaped, l2, es) => charClose inp start (if escaped < 128 then escaped else 65533) l2 es
     else if b == 39 then recoverTok start l .emptyCharLiteral (.chr 0) l1
     else if 128 ≤ b then
       match restoreChar inp b l1.abs with
-      | .ok full => close full (bumpN inp (lenUtf8 full - 1) l1) []
+      | .ok full => charClose inp start full (bumpN inp (lenUtf8 full - 1) l1) []
       | .panic m => .panic m
       | .hang => .hang
-    else close b l1 []
+    else charClose inp start b l1 []
 
 /-- `recover(a, b, UnexpectedChar(restore_char(ch)), ())?` when the lookahead is an identifier
 start (token.rs:693, 713, 748, 760): the recorded errors. -/
@@ -661,8 +664,7 @@ def blockLoop (inp : Input) (start : Loc) (l : Loc) : Res (Out ⊕ (Option STok 
   | .panic m => .panic m
   | .hang => .hang
   | .ok (l1, (s, e)) =>
-    let l2 := bumpLoc inp l1          -- skip the `*` found
-    match bump inp l2 with
+    match bump inp (bumpLoc inp l1) with   -- `bumpLoc`: skip the `*` found
     | some (b, l3) =>
       if b == 47 then
         if startsWith inp s e (lit "/**") && e - s != 3 then
@@ -670,15 +672,17 @@ def blockLoop (inp : Input) (start : Loc) (l : Loc) : Res (Out ⊕ (Option STok 
           | .panic m => .panic m
           | .hang => .hang
           | .ok (cs, ce) =>
+            -- `str::trim`: an all-whitespace string trims to the empty slice at its START
             let cs' := trimStart inp cs ce
-            let ce' := trimEnd inp cs' ce
+            let (cs', ce') := if cs' == ce then (cs, cs) else (cs', trimEnd inp cs' ce)
             .ok (.inr (some ⟨start, l3, .doc true cs' ce'⟩, l3))
         else .ok (.inr (none, l3))
       else
         -- `Some((_, _)) => continue`: the byte after the `*` is not consumed
-        if l.abs < l2.abs ∧ l.abs < inp.size then blockLoop inp start l2 else .hang
+        if l.abs < (bumpLoc inp l1).abs ∧ l.abs < inp.size then blockLoop inp start (bumpLoc inp l1)
+        else .hang
     | none =>
-      match fatal inp l2 .unexpectedEof l2 with     -- eof_error
+      match fatal inp (bumpLoc inp l1) .unexpectedEof (bumpLoc inp l1) with     -- eof_error
       | .ok o => .ok (.inl o)
       | .panic m => .panic m
       | .hang => .hang
